@@ -140,6 +140,78 @@ let lower_s (s : n list) : n list =
       | None -> [ c ])
     s
 
+(* ---- locators ---- *)
+
+let rec z_to_string (z : z) : string =
+  String.concat "" (List.map (fun c -> String.make 1 (Char.chr (int_of_n c))) (dec_of_Z z))
+
+let n_to_string (x : n) : string =
+  String.concat "" (List.map (fun c -> String.make 1 (Char.chr (int_of_n c))) (dec_of_N x))
+
+let show_atoms (offs : n list) : string =
+  let atoms, _ = offset_atoms offs in
+  let one = function
+    | APlus None -> "+_"
+    | APlus (Some x) -> "+" ^ n_to_string x
+    | ATilde None -> "~_"
+    | ATilde (Some x) -> "~" ^ n_to_string x
+  in
+  "[" ^ String.concat " " (List.map one atoms) ^ "]"
+
+let show_loc (l : ploc) : string =
+  let id =
+    match l.l_id with
+    | IdName nm -> "name:" ^ hex_of_str nm
+    | IdBase -> "base"
+    | IdTop -> "top"
+    | IdBelowLast None -> "belowlast:_"
+    | IdBelowLast (Some z) -> "belowlast:" ^ z_to_string z
+    | IdBelowTop None -> "belowtop:_"
+    | IdBelowTop (Some x) -> "belowtop:" ^ n_to_string x
+  in
+  "(" ^ id ^ " " ^ show_atoms l.l_offs ^ ")"
+
+let show_opt_loc = function Some l -> show_loc l | None -> "_"
+
+let show_range = function
+  | RSingle l -> "single" ^ show_loc l
+  | RRange (b, e) -> "range(" ^ show_opt_loc b ^ " " ^ show_opt_loc e ^ ")"
+
+let lerr_name = function
+  | EPatchNotKnown -> "PatchNotKnown"
+  | EInvalidPatchIndex -> "InvalidPatchIndex"
+  | EInvalidPatchOffset -> "InvalidPatchOffset"
+  | EInvalidOffsetFrom -> "InvalidOffsetFrom"
+  | EBaseNeedsOffset -> "BaseNeedsOffset"
+  | EBaseNeedsPositiveOffset -> "BaseNeedsPositiveOffset"
+  | ENoLastPatch -> "NoLastPatch"
+  | EAmbiguousCommitId -> "AmbiguousCommitId"
+  | EPatchNotAllowed -> "PatchNotAllowed"
+  | EDuplicate -> "Duplicate"
+  | ENotContiguous -> "NotContiguous"
+  | EBoundaryOrder -> "BoundaryOrder"
+
+let rconstraint_of = function
+  | "All" -> RCAll
+  | "AllWithAppliedBoundary" -> RCAllApplied
+  | "Visible" -> RCVisible
+  | "VisibleWithAppliedBoundary" -> RCVisibleApplied
+  | "Applied" -> RCApplied
+  | "Unapplied" -> RCUnapplied
+  | "Hidden" -> RCHidden
+  | _ -> raise Not_found
+
+let ascii_str (s : string) : n list =
+  List.init (String.length s) (fun i -> n_of_int (Char.code s.[i]))
+
+let view_of (a : string) (u : string) (h : string) (oids : string) : sview =
+  let a = strs_of_hexlist a and u = strs_of_hexlist u and h = strs_of_hexlist h in
+  let oid_list = if oids = "-" then [] else String.split_on_char ',' oids in
+  let all = a @ u @ h in
+  let tbl = List.mapi (fun i nm -> (nm, ascii_str (List.nth oid_list i))) all in
+  { v_applied = a; v_unapplied = u; v_hidden = h;
+    v_oidhex = (fun nm -> match List.assoc_opt nm tbl with Some o -> o | None -> []) }
+
 (* ---- request evaluation ---- *)
 
 exception Bad_request
@@ -175,6 +247,49 @@ let eval (fields : string list) : string =
   | "collides" ->
       if collides (str_of_hex (nth fields 1)) (str_of_hex (nth fields 2)) then "true"
       else "false"
+  | "locparse" -> (
+      match parse_locator (str_of_hex (nth fields 1)) with
+      | Some l -> "ok " ^ show_loc l ^ " " ^ hex_of_str (display_loc l)
+      | None -> "err")
+  | "rangeparse" -> (
+      match parse_range (str_of_hex (nth fields 1)) with
+      | Some r -> "ok " ^ show_range r ^ " " ^ hex_of_str (display_range r)
+      | None -> "err")
+  | "offsparse" -> (
+      match offsets_full (str_of_hex (nth fields 1)) with
+      | Some o -> "ok " ^ show_atoms o
+      | None -> "err")
+  | "resolve" -> (
+      let v = view_of (nth fields 1) (nth fields 2) (nth fields 3) (nth fields 4) in
+      match parse_locator (str_of_hex (nth fields 5)) with
+      | None -> "parse-err"
+      | Some l -> (
+          match resolve_name v l with
+          | ROk n -> "ok " ^ hex_of_str n
+          | RErr e -> "err " ^ lerr_name e
+          | RPanic -> "PANIC"))
+  | "resolve_names" -> (
+      let v = view_of (nth fields 1) (nth fields 2) (nth fields 3) (nth fields 4) in
+      let rc = rconstraint_of (nth fields 5) in
+      let contiguous = nth fields 6 = "1" in
+      let rec parse_all = function
+        | [] -> Some []
+        | h :: t -> (
+            match parse_range h with
+            | None -> None
+            | Some r -> ( match parse_all t with None -> None | Some l -> Some (r :: l)))
+      in
+      match parse_all (strs_of_hexlist (nth fields 7)) with
+      | None -> "parse-err"
+      | Some ranges -> (
+          let res =
+            if contiguous then resolve_names_contiguous v rc ranges
+            else resolve_names v rc ranges
+          in
+          match res with
+          | ROk l -> "ok " ^ hexlist_of_strs l
+          | RErr e -> "err " ^ lerr_name e
+          | RPanic -> "PANIC"))
   | "gitok" -> if git_component_ok (str_of_hex (nth fields 1)) then "true" else "false"
   | "pname" -> (
       match patch_name_p (str_of_hex (nth fields 1)) with
